@@ -736,3 +736,52 @@ func hasRealReferrer(v ssa.Value) bool {
 	}
 	return false
 }
+
+// natLoop: a natural loop of the CFG (back edge tail -> header where the
+// header dominates the tail): header plus every block that reaches the tail
+// without passing the header.  Covers range loops and counted for loops alike.
+type natLoop struct {
+	Header *ssa.BasicBlock
+	Blocks map[*ssa.BasicBlock]bool
+}
+
+func naturalLoops(f *ssa.Function) []*natLoop {
+	byHdr := map[*ssa.BasicBlock]*natLoop{}
+	var out []*natLoop
+	for _, b := range f.Blocks {
+		for _, h := range b.Succs {
+			if !(h == b || h.Dominates(b)) {
+				continue
+			}
+			l := byHdr[h]
+			if l == nil {
+				l = &natLoop{Header: h, Blocks: map[*ssa.BasicBlock]bool{h: true}}
+				byHdr[h] = l
+				out = append(out, l)
+			}
+			// walk predecessors from the tail up to the header
+			stack := []*ssa.BasicBlock{b}
+			for len(stack) > 0 {
+				x := stack[len(stack)-1]
+				stack = stack[:len(stack)-1]
+				if l.Blocks[x] {
+					continue
+				}
+				l.Blocks[x] = true
+				stack = append(stack, x.Preds...)
+			}
+		}
+	}
+	return out
+}
+
+// innermostLoop: the smallest natural loop that contains b (nil if none).
+func innermostLoop(loops []*natLoop, b *ssa.BasicBlock) *natLoop {
+	var best *natLoop
+	for _, l := range loops {
+		if l.Blocks[b] && (best == nil || len(l.Blocks) < len(best.Blocks)) {
+			best = l
+		}
+	}
+	return best
+}
